@@ -2,7 +2,7 @@
 import json
 import re
 
-from .. import gen
+from .. import docmut, gen
 from ..ref import aes, base58, bip32, ec, hashes, wire
 from . import C11
 
@@ -218,6 +218,27 @@ def cases(ctx):
                         payload = bytes([lead]) + payload[1:]
                     txt = base58.check_encode(payload)
                     yield mk(which, kind, json.dumps(txt) if which.endswith("serde_json") else txt, "checksum_valid_len")
+        # 4c. structured (field-level) mutation of JSON documents, also re-encoded as CBOR for the CBOR decoders
+        docsrc = {"tx_from_json_string": "tx_from_json_string", "tx_from_compact_bytes": "tx_from_json_string", "tx_from_compact_hex": "tx_from_json_string",
+                  "txin_serde_json": "txin_serde_json", "txin_from_compact_bytes": "txin_serde_json", "txin_from_compact_hex": "txin_serde_json",
+                  "txout_serde_json": "txout_serde_json", "script_serde_json": "script_serde_json"}.get(which)
+        if docsrc and corpus.get(docsrc):
+            srcs = corpus[docsrc] if t else [corpus[docsrc][S % len(corpus[docsrc])]]
+            for text in srcs:
+                try:
+                    muts = list(docmut.all_variants(text, r, max_paths=400 if t else 120))
+                except ValueError:
+                    continue
+                for d in muts:
+                    try:
+                        if which.endswith("compact_bytes"):
+                            yield mk(which, kind, docmut.cbor(d), "field_mutation")
+                        elif which.endswith("compact_hex"):
+                            yield mk(which, kind, docmut.cbor(d).hex(), "field_mutation")
+                        else:
+                            yield mk(which, kind, json.dumps(d), "field_mutation")
+                    except (TypeError, ValueError, OverflowError):
+                        continue
         # 5. random
         for _ in range(200 if t else 12):
             if kind == "bytes":
